@@ -18,10 +18,16 @@ RULE = ("every arrangement is executed on the real backend()/get_user_command()/
         "stays, the others hang up before the first command: all layouts of <= 3 live network users in slots 1..3 with "
         "gaps, slot 0 empty or console} x per live user a queue script {0,1,2,3 complete lines} x {no, one trailing "
         "partial line} x {everything in one chunk in cycle 1, one line per cycle} (13 scripts; 6 for the console user, whose "
-        "input is whole lines); deviations (budget B, each costs 1): single-character mode (get_char, re-armed by its "
-        "callback) per network user, one special first line {`m`: a verb that calls command() three times, `q`: the user "
-        "destructs itself in its command} of one user, one mid-cycle event {a new user connects in cycle 1..4 and sends a "
-        "line in the next cycle, a live user hangs up (EVENT_CLOSE) in cycle 1..4} (quick tier: mid-cycle events in cycles 1..2). 4 arrival cycles + 1 for the late "
+        "input is whole lines; quick tier: 3 console scripts {none, two lines one per cycle, three lines in one chunk}); "
+        "deviations (budget B, each costs 1): single-character mode (get_char, re-armed by its callback) per network user; "
+        "one special first line of one user {`m`: a verb that calls command() three times, `q`: the user destructs itself "
+        "in its command, `i`/`g`: the handler calls input_to(fn, F) / get_char(fn, F) with flags word F while the same user "
+        "has further lines typed ahead, F in {0x1000, 0x7fffffff, 0x80} for input_to and {0x1000} for get_char (thorough: "
+        "all of 0,1,2,4,0x10,0x20,0x40,0x80,0x100,0x400,0x800,0x1000,0x7fffffff for both), offered for the first user with "
+        ">= 2 lines}; one mid-cycle event {a new user connects in cycle c and sends a line in the next cycle, a live user "
+        "hangs up (EVENT_CLOSE) in cycle c, the peer of a live user whose output is still pending (send() answered "
+        "EWOULDBLOCK since it connected) vanishes in cycle c without any event: the flush inside the command scan gets "
+        "EPIPE} for c in 1..4 (quick tier: 1..2). 4 arrival cycles + 1 for the late "
         "user's line + quiet cycles until every queue is empty (<= 6). Per cycle: <= 1 buffered command per user; every "
         "connected user with a complete command buffered when the command phase starts is served in that cycle; per-user "
         "order and content; the three command() calls run inside the turn of `m`; the wait is entered with timeout 0 while "
@@ -30,15 +36,15 @@ RULE = ("every arrangement is executed on the real backend()/get_user_command()/
 ASSUME = ["a command counts as buffered from the cycle whose process_io() received its last byte",
           "single-character mode: every buffered byte is a complete command; the callback may be handed several bytes at once",
           "modes do not change while input is buffered (get_char is armed at logon and re-armed by its callback)",
-          "hang-ups are reported as EVENT_CLOSE (the recv()==0 path is C09's subject)",
+          "hang-ups are reported as EVENT_CLOSE (the recv()==0 path is C09's subject); a user whose peer vanished is not required to be served any more, the others are",
           "no timer ticks during the arrangement (heart beats do not take part in command selection)"]
 
 def run(ck):
     exe = build(ck)["h_c12"]
     if ck.tier == "quick":
-        ck.explore(exe, ["--midcycles=2"], "b1-mid2", budget=1, deadline_s=215)
+        ck.explore(exe, ["--midcycles=2", "--console-scripts=3"], "b1-mid2-con3", budget=1, deadline_s=215)
     else:
-        ck.explore(exe, [], "b2", budget=2, deadline_s=2000)
+        ck.explore(exe, ["--full-flags=1"], "b2-fullflags", budget=2, deadline_s=2000)
     cov = vlib.mc_coverage(ck.parts, RULE, extra={
         "arrangements_completed": sum(p.get("counters", {}).get("arrangements_completed", 0) for p in ck.parts),
         "buffered_commands_served": sum(p.get("counters", {}).get("buffered_commands_served", 0) for p in ck.parts),
